@@ -31,6 +31,8 @@ var c01Families = []family{
 	{`query($v1: Boolean!) { me { best { id } boss { id age } friends { id best @include(if: $v1) { id } } pet { __typename } items { title owner { id } } } }`, []string{"v1"}},
 	// lists of scalars: non-null elements in a nullable and in a non-null list, nullable elements
 	{`query($v1: Boolean!) { me { id marks stamps @include(if: $v1) } odds users { stamps } }`, []string{"v1"}},
+	// @skip and @include on the same node (field, inline fragment, fragment spread), in both orders
+	{`query($v1: Boolean!, $v2: Boolean!) { me { id name @skip(if: $v1) @include(if: $v2) best @include(if: $v2) @skip(if: $v1) { id } ... @skip(if: $v1) @include(if: $v2) { age } ...B @include(if: $v2) @skip(if: $v1) } } fragment B on User { boss { id } }`, []string{"v1", "v2"}},
 	// an object with exactly one resolver-backed field, non-null, selected under several aliases
 	{`query($v1: Boolean!) { box { id a: inner { id } b: inner { id name } c: inner @include(if: $v1) { age } } me { id } }`, []string{"v1"}},
 }
